@@ -5,6 +5,8 @@ package main
 // the printed header with opposite polarity; every admitted block is written.
 
 import (
+	"regexp"
+	"os"
 	"fmt"
 	"go/constant"
 	"go/token"
@@ -490,6 +492,11 @@ func niWidth(c *Ctx, a *flAgg) {
 	okCols := false
 	var pkgCol, srcCol string
 	allPaths := true
+	nFmt, noName, noArgs := 0, 0, 0
+	lineName := "line"
+	if len(cl.Params) > 1 {
+		lineName = cl.Params[1].Name()
+	}
 	for _, p := range x.Paths {
 		if p.Term == "return" && len(p.Results) == 1 && !p.Results[0].calleeIs("fmt", "Sprintf") {
 			allPaths = false
@@ -520,6 +527,33 @@ func niWidth(c *Ctx, a *flAgg) {
 				return ""
 			}
 			w1, c1, w2, c2 := get(stars[0]), get(stars[0]+1), get(stars[1]), get(stars[1]+1)
+			// what the rest of the line shows: the function name and the
+			// arguments of this very frame, on every path (a shortcut that
+			// prints "" for a frame "without arguments" drops the "..." of
+			// a frame whose arguments were all elided)
+			nFmt++
+			hasName, hasArgs := false, false
+			for i, v := range verbs {
+				if v != "s" && v != "v" {
+					continue
+				}
+				o := get(i)
+				if os.Getenv("PPCHECK_NI_DUMP") != "" {
+					fmt.Fprintf(os.Stderr, "callLine operand %d %q\n", i, o)
+				}
+				if strings.HasSuffix(o, lineName+".Func.Name") {
+					hasName = true
+				}
+				if o == "&"+lineName+".Args" || strings.HasSuffix(o, ".String(&"+lineName+".Args)") {
+					hasArgs = true
+				}
+			}
+			if !hasName {
+				noName++
+			}
+			if !hasArgs {
+				noArgs++
+			}
 			if w1 == "pkgLen" && strings.HasSuffix(c1, ".Func.DirName") && w2 == "srcLen" && strings.Contains(c2, "formatCall(") && verbs[stars[0]+1] == "s" && verbs[stars[1]+1] == "s" && strings.Contains(format, "%-*s") {
 				okCols = true
 				pkgCol, srcCol = "DirName", "formatCall"
@@ -535,6 +569,15 @@ func niWidth(c *Ctx, a *flAgg) {
 		a.bad("NI-width", "callLine/columns", "callLine does not pad Func.DirName to pkgLen and pf.formatCall(line) to srcLen with %-*s", cl.Pos())
 	}
 	_, _ = pkgCol, srcCol
+	switch {
+	case nFmt == 0:
+	case noName > 0:
+		a.bad("NI-width", "callLine/fields", "callLine has a path on which the line does not show the frame's Func.Name", cl.Pos())
+	case noArgs > 0:
+		a.bad("NI-width", "callLine/fields", "callLine has a path on which the arguments shown are not the frame's Args rendered by Args.String (an all-elided argument list \"...\" has no Values and no Processed, yet is not empty)", cl.Pos())
+	default:
+		a.ok("NI-width", "callLine/fields", "on every path the line shows the frame's function name and its Args through Args.String", cl.Pos())
+	}
 	for _, name := range []string{"calcBucketsLengths", "calcGoroutinesLengths"} {
 		fn := c.MustFunc(a.obls, "NI-width", "internal", "", name)
 		if fn == nil {
@@ -869,6 +912,11 @@ func niFormat(c *Ctx, a *flAgg) {
 			}
 			rs := p.Results[0].String()
 			if r := p.Results[0]; r.calleeIs("fmt", "Sprintf") && len(r.Args) > 2 && r.Args[2].Op == OpSlice {
+				// the format has one verb per operand: text, colon, number
+				if f, isC := constStr(r.Args[1]); isC && !reCallFormat.MatchString(f) {
+					okAll, why = false, fmt.Sprintf("the format %q does not print a path, a colon and a line number", f)
+					continue
+				}
 				// the operands live in the variadic array
 				arr := r.Args[2].Args[0].String()
 				for i := 0; i < 8; i++ {
@@ -1465,3 +1513,5 @@ func niWidthHelper(fn *ssa.Function) (niHelper, bool) {
 	}
 	return niHelper{}, false
 }
+
+var reCallFormat = regexp.MustCompile(`^%[sv]:%[dv]$`)
